@@ -32,7 +32,6 @@ _CONTROL_STRUCTURES = (
     ast.AsyncWith,
     ast.Try,
     ast.Match,
-    ast.match_case,
 )
 
 
